@@ -16,7 +16,7 @@ class Prop:
             "configurations (tun,bind,receive functions) in {(1,1,2),(4,2,1),(2,8,2),(3,3,1)}: 14 directed plans per configuration "
             "(outbound branches, inbound transport branches, handshake branches, key rotation, staged overflow > 128 containers, "
             "overflow then down/up, counter limit with out-of-order re-staging, down/up cycles, persistent keepalive, removal, "
-            "identity change, close with packets staged, close while down, rate-limited handshakes under load with a consumed cookie) + random plans from one PRNG; counts read after every "
+            "identity change, close with packets staged, close while down, rate-limited handshakes under load with a consumed cookie, handshake-queue overflow with all handshake workers parked in Bind.Send) + random plans from one PRNG; counts read after every "
             "step, Close followed by two runtime.GC(); 29 stall scenarios with very small pools + 4 rounds of two goroutines waiting on an exhausted message-buffer pool while a two-element batch is released; non-trivial = the plan reaches "
             "at least 6 different branch kinds and at least one step with packets staged; distinct by content hash")
     assumptions = ["pools are bounded through the package variable device.VerifPoolMax (build tag verif) so that WaitPool.count is maintained",
@@ -86,7 +86,7 @@ class Prop:
                  ["transport_no_live_keypair", "skipped_in_receive_loop"] +
                  ["handshake_" + x for x in ("bad_mac1", "initiation_accepted", "initiation_refused", "response_accepted", "response_refused", "cookie_reply", "under_load_cookie_sent")] +
                  ["peer_removals", "down", "up", "close", "steps_with_full_staged_queue", "steps_with_staged_packets", "identity_changes", "steps_with_counter_limit_restaging",
-                  "handshake_under_load_valid_cookie_rate_limiter"])
+                  "handshake_under_load_valid_cookie_rate_limiter", "handshake_queue_overflow_labelled"])
         tot = [0] * len(names)
         for o in outputs.values():
             v = vlib.parse_n_list(vlib.coq_value(o, "st"))
@@ -157,7 +157,7 @@ class Prop:
         for s in steps:
             ev = s["ev"]
             kinds.add(ev.split()[0])
-            for tok in ("TDrop 0", "TDrop 1", "TDrop 2", "TDrop 3", "TRoute", "DSkip", "DHs 0", "DHs 1", "DHs 2", "DHs 3", "DHs 4", "DHs 5", "DHs 6", "DHs 7"):
+            for tok in ("TDrop 0", "TDrop 1", "TDrop 2", "TDrop 3", "TRoute", "DSkip", "DHs 0", "DHs 1", "DHs 2", "DHs 3", "DHs 4", "DHs 5", "DHs 6", "DHs 7", "DHs 8"):
                 if tok in ev:
                     kinds.add(tok)
             for v in range(7):
